@@ -1,6 +1,7 @@
 import SoxrModel.Fifo.Refine
 import SoxrModel.Fifo.FootprintLemmas
 import SoxrModel.Fifo.Kernel
+import SoxrModel.Fifo.Capacity
 /-!
 # C07 — memory safety and the buffer contract
 
@@ -381,21 +382,62 @@ theorem witnesses_in_bounds_now :
   ⟨process_footprint f2Cfg f2Call 2 false f2Its (by decide) F2_historical_interleaved_output_overread.1,
    process_footprint f15Cfg f15Call 0 false f15Its (by decide) F15_historical_split_pull_overread.1⟩
 
-/-! ## Not proved (kept as statements, never as theorems) -/
+/-! ## The capacity clause under C's `double` arithmetic (formerly `Goal_capacity_with_double_rounding`)
 
-/-- what C computes for `max_num_out = 1 + (int)(num_in * out_in_ratio)` with `out_in_ratio = (double)den / (double)step`
-    (`Float` = IEEE binary64; opaque to the kernel, which is why the clause below is a goal and not a theorem). -/
-def cMaxNumOut (den step numIn : Nat) : Nat :=
-  1 + (Float.floor (Float.ofNat numIn * (Float.ofNat den / Float.ofNat step))).toUInt64.toNat
+`max_num_out = 1 + (int)(num_in * out_in_ratio)` with `out_in_ratio = MULT32 * L / (double)step.whole` (poly-fir.h:125,
+cr-core.c:53; cr.c:411, 488).  `Float` is opaque to the kernel, so the statement is made about the exact rational value
+`p` of the product under the STANDARD MODEL of binary64 arithmetic: each of the three operations (conversion of
+`step.whole`, division, multiplication) returns the exact result times `1 + e` with `|e| ≤ 2⁻⁵³` (no overflow or
+underflow here: all values lie between 2⁻³¹ and 2⁶⁴).  `three_roundings` turns that model into `RoundedProduct`; the
+two capacity theorems need nothing else.  The truncation `(int)p` is `⌊p⌋` because `0 ≤ p < 2³¹`. -/
 
-/-- The capacity clause itself under C's `double` arithmetic, for the standard clock (`den = 2^32·L`, so both
-    operands are exact doubles): argued informally in DESIGN §2.2 (the fractional part of `num_in·den/step` is a
-    multiple of `1/step ≥ 2⁷` rounding errors for `num_in ≤ 8192`), evaluated per exported plan by `PlanWF`'s capacity
-    clause (C03 area), and checked on every sanitizer run by the asserts of poly-fir.h:129 / cr-core.c:63, which
-    the `san` build keeps.  `clocked_writes_in_reserved` takes it as its hypothesis `hcap`. -/
-def Goal_capacity_with_double_rounding : Prop :=
-  ∀ (c : StageCfg) (s : StageSt), 0 < c.step → c.step < 2 ^ 53 → c.den < 2 ^ 53 → s.isz ≤ 8192 → s.clk < c.den →
-    clockedCount c s ≤ cMaxNumOut c.den c.step (numIn c s)
+/-- **Capacity, standard clock and cubic stage** (`den = 2³²`; `num_in ≤ input_size = 8192`, any bound up to 2¹⁹ will do):
+    the clock loop's count fits what was reserved, whatever the roundings did. -/
+theorem capacity_with_double_rounding (c : StageCfg) (s : StageSt) (hs : 0 < c.step) (hden : c.den ≤ 2 ^ 32)
+    (hn : numIn c s ≤ 2 ^ 19) (p : ℚ) (hp : RoundedProduct (numIn c s * c.den) c.step p) :
+    clockedCount c s ≤ 1 + ⌊p⌋.toNat := by
+  have hN : numIn c s * c.den ≤ 2 ^ 51 := by
+    calc numIn c s * c.den ≤ 2 ^ 19 * 2 ^ 32 := Nat.mul_le_mul hn hden
+      _ = 2 ^ 51 := by norm_num
+  exact capacity_rounded c s hs hN p hp
+
+/-- **Capacity, hi-prec clock** (`den = 2³²·2⁶⁴`, 96-bit step): the planner divides by the top 64 bits of the step
+    (`step.whole`), which over-estimates the ratio; the bound holds with those 64-bit quantities in the hypothesis. -/
+theorem capacity_with_double_rounding_hiprec (c : StageCfg) (s : StageSt) (hden : c.den = 2 ^ 32 * 2 ^ 64)
+    (hs : 0 < c.step / 2 ^ 64) (hn : numIn c s ≤ 2 ^ 19) (p : ℚ)
+    (hp : RoundedProduct (numIn c s * 2 ^ 32) (c.step / 2 ^ 64) p) :
+    clockedCount c s ≤ 1 + ⌊p⌋.toNat := by
+  have hN : numIn c s * 2 ^ 32 ≤ 2 ^ 51 := by
+    calc numIn c s * 2 ^ 32 ≤ 2 ^ 19 * 2 ^ 32 := Nat.mul_le_mul_right _ hn
+      _ = 2 ^ 51 := by norm_num
+  exact capacity_rounded_hiprec c s (2 ^ 32) hden hs hN p hp
+
+/-- from the floating-point model itself: `w'` the converted step, `q` the planner's `out_in_ratio`, `p` the kernel's product -/
+theorem capacity_from_fp_model (c : StageCfg) (s : StageSt) (hs : 0 < c.step) (hden : c.den ≤ 2 ^ 32) (hn : numIn c s ≤ 2 ^ 19)
+    (w' q p : ℚ) (hw' : 0 < w') (h1 : w' ≤ (c.step : ℚ) * (1 + 1 / 2 ^ 53)) (h2 : (c.den : ℚ) / w' * (1 - 1 / 2 ^ 53) ≤ q)
+    (h3 : (numIn c s : ℚ) * q * (1 - 1 / 2 ^ 53) ≤ p) : clockedCount c s ≤ 1 + ⌊p⌋.toNat :=
+  capacity_with_double_rounding c s hs hden hn p (three_roundings (numIn c s) c.den c.step hs w' q p hw' h1 h2 h3)
+
+/-- … and therefore what the kernel writes lies inside what it reserved (the hypothesis `hcap` of
+    `clocked_writes_in_reserved` discharged). -/
+theorem clocked_writes_in_reserved_rounded (fifoMin : Nat) (junk : Nat → β) (out : Fifo β) (hwf : WF out)
+    (c : StageCfg) (s : StageSt) (hs : 0 < c.step) (hden : c.den ≤ 2 ^ 32) (hn : numIn c s ≤ 2 ^ 19) (p : ℚ)
+    (hp : RoundedProduct (numIn c s * c.den) c.step p) :
+    ∃ f1 off, reserve fifoMin junk out (1 + ⌊p⌋.toNat) = some (f1, off) ∧
+      off + clockedCount c s * out.itemSize ≤ f1.allocation ∧
+      WF (trimBy f1 (1 + ⌊p⌋.toNat - clockedCount c s)) ∧
+      (contents (trimBy f1 (1 + ⌊p⌋.toNat - clockedCount c s))).length = (contents out).length + clockedCount c s * out.itemSize :=
+  clocked_writes_in_reserved fifoMin junk out hwf c s _ (capacity_with_double_rounding c s hs hden hn p hp)
+
+/-- non-vacuity, and the `1 +` is needed: ratio 1.5 (`step = 3·2³¹`), three frames available, clock at 0 — the exact
+    product is 2, a product rounded down by the whole allowance is `2 − 2⁻⁵⁰`, `(int)` of it is 1, and the loop yields 2. -/
+example : RoundedProduct (3 * 2 ^ 32) (3 * 2 ^ 31) (2 - 1 / 2 ^ 50) ∧ ⌊(2 - 1 / 2 ^ 50 : ℚ)⌋.toNat = 1 ∧
+    loopCount 0 (3 * 2 ^ 31) (3 * 2 ^ 32) = 2 := by
+  refine ⟨?_, ?_, by decide⟩
+  · unfold RoundedProduct; norm_num
+  · have : ⌊(2 - 1 / 2 ^ 50 : ℚ)⌋ = 1 := by
+      rw [Int.floor_eq_iff]; constructor <;> norm_num
+    rw [this]; rfl
 
 /-! The variable-rate engine (`vr32.c`) uses the same `fifo.h` (so the FIFO theorems apply to each of its calls),
 but the index sets its poly-phase / half-band kernels read are not modelled in this area (its control skeleton is
